@@ -41,6 +41,7 @@ func main() {
 	verifDir := flag.String("verif", "", "verif dir (default: parent of the executable's dir)")
 	tags := flag.String("tags", "", "build tags")
 	list := flag.Bool("list", false, "list functions")
+	obls := flag.Bool("obls", false, "print every obligation (rule | key | status)")
 	flag.Parse()
 	if *tier == "" {
 		*tier = "quick"
@@ -99,6 +100,11 @@ func main() {
 	c := newCtx(P, *prop, *tier, findings)
 	for _, r := range spec.Rules {
 		runRule(c, r)
+	}
+	if *obls {
+		for _, o := range c.Obls {
+			fmt.Printf("OBL %s | %s | %s\n", o.Rule, o.Key, o.Status)
+		}
 	}
 	expl := spec.Explanation + " NOT DECIDED: " + spec.NotDecided
 	os.Exit(c.finish(*verifDir, seed, start, expl, commonAssumptions, nil))
